@@ -67,6 +67,8 @@ enum {
 
 static Byte MaxMoto, MaxIntel;
 
+static LongWord MOSRecCnt;
+
 static tHexFormat DestFormat;
 
 static ChunkList UsedList;
@@ -477,6 +479,7 @@ static void ProcessFile(char const* FileName, LongWord Offset) {
                         fprintf(TargFile, ";%02X%04X", Lo(TransLen), LoWord(ErgStart));
                         ChkIO(TargName);
                         ChkSum = TransLen + Lo(ErgStart) + Hi(ErgStart);
+                        MOSRecCnt++;
                         break;
                     case eHexFormatIntel:
                     case eHexFormatIntel16:
@@ -1248,6 +1251,7 @@ int main(int argc, char** argv) {
     FormatOccured = 0;
     MaxMoto       = 0;
     MaxIntel      = 0;
+    MOSRecCnt     = 0;
 
     if (DestFormat == eHexFormatC) {
         errno = 0;
@@ -1353,7 +1357,8 @@ int main(int argc, char** argv) {
 
     if (FormatOccured & eMOSOccured) {
         errno = 0;
-        fprintf(TargFile, ";0000040004\n");
+        fprintf(TargFile, ";00%04X%04X\n", LoWord(MOSRecCnt),
+                LoWord(Lo(MOSRecCnt) + Hi(MOSRecCnt)));
         ChkIO(TargName);
     }
 
